@@ -148,11 +148,14 @@ def run(tier, t0):
         part.nontrivial_count += 1
         part.check("dialogue", check_dialogue, inp)
     part.merge(runner.hyp_shards("vf.props.c16", "hyp_part", 3200 if tier == "quick" else 120000))
+    from ..fuzz import driver
+    fuzz_note = driver.campaign(part, "dialogue", runs=160000 if tier == "quick" else 4000000, only=("dialogue",))
     rule = ("version in {2, 3, 3.0, 3.1, 4, 4.0} x all_metrics x no_colors x answer script (per question 0-3 rejected-looking "
             "answers: junk text, values of other metrics, empty where illegal, value+suffix; then a legal value in random "
             "letter case/padding or empty for Not Defined); 10% truncated scripts (EOF). Covering part: every legal value of "
             "every metric selected in upper and lower case; runs of 400-3000 rejected answers to a single question. non-trivial = script with a retry or an empty answer; distinct by hash")
     return runner.finish(part, tier, t0, rule,
                          ["asking order is taken from the returned vector (any order is accepted as long as the result is made of the accepted answers); prompts/banners are not asserted",
-                          "invalid answers are drawn from ASCII plus a few non-ASCII characters without ASCII case mappings"],
-                         required=["covering", "long-retry", "eof-at-tty", "streams-claim-tty", "retry", "empty-answer", "truncated", "all", "mandatory-only"] + ["version=%r" % (v,) for v in interact.VERSIONS])
+                          "invalid answers are drawn from ASCII plus a few non-ASCII characters without ASCII case mappings",
+                          "coverage-guided: " + fuzz_note],
+                         required=["atheris-execs:dialogue", "covering", "long-retry", "eof-at-tty", "streams-claim-tty", "retry", "empty-answer", "truncated", "all", "mandatory-only"] + ["version=%r" % (v,) for v in interact.VERSIONS])
